@@ -20,3 +20,53 @@ package gcsca
 //@   ensures[C11] path != "keyManifest.textproto" ==> manifestWrites == old(manifestWrites)
 //@   ensures[C11] old(manifestWrites) == 0 ==> wroteAfterManifest == old(wroteAfterManifest)
 //@   ensures[C12] old(diskHas)[path] && !allowOverwrite(ctx) ==> objWrites == old(objWrites)
+
+// entriesStored: every manifest entry names an object present on the ghost disk.
+//@ func (*CertificateAuthority).upload
+//@   requires ca != nil && ca.Storage != nil && manifest != nil
+//@   requires[C11] forall(i, 0 <= i && i < len(manifest.Entries) ==> manifest.Entries[i] != nil && diskHas[manifest.Entries[i].ObjectPath] && manifest.Entries[i].ObjectPath != "keyManifest.textproto")
+//@   assigns manifest.Entries, manifest.Entries[*]
+//@   modifies diskHas, wroteAfterManifest, manifestWrites, objWrites
+//@   ensures[C11] forall(i, 0 <= i && i < len(manifest.Entries) ==> manifest.Entries[i] != nil && diskHas[manifest.Entries[i].ObjectPath] && manifest.Entries[i].ObjectPath != "keyManifest.textproto")
+//@   ensures[C11] forall(o, string, old(diskHas)[o] ==> diskHas[o])
+//@   ensures[C11] manifestWrites == old(manifestWrites) && (old(manifestWrites) == 0 ==> wroteAfterManifest == old(wroteAfterManifest))
+//@   ensures[C11] err == nil && result0 != nil ==> exists(i, 0 <= i && i < len(manifest.Entries) && manifest.Entries[i].KeyVersionName == keyVersionName)
+
+//@ func (*CertificateAuthority).certObjectName
+//@   assigns nothing
+//@   ensures[C11] hassuffix(result, ".crt")
+
+//@ func (*CertificateAuthority).readManifest trusted
+//@   assigns nothing
+//@   modifies pbsrc, pbok
+//@   ensures err == nil ==> result != nil && fresh(result)
+//@   ensures err == nil && storeConsistent ==> forall(i, 0 <= i && i < len(result.Entries) ==> result.Entries[i] != nil && diskHas[result.Entries[i].ObjectPath] && result.Entries[i].ObjectPath != "keyManifest.textproto")
+
+//@ func (*CertificateAuthority).getManifest
+//@   requires ca != nil
+//@   assigns ca.manifest
+//@   modifies pbsrc, pbok
+//@   ensures[C11] err == nil ==> result != nil && result == ca.manifest && (old(ca.manifest) != nil ==> result == old(ca.manifest))
+//@   ensures[C11] err == nil && old(ca.manifest) == nil ==> fresh(result) && (storeConsistent ==> forall(i, 0 <= i && i < len(result.Entries) ==> result.Entries[i] != nil && diskHas[result.Entries[i].ObjectPath] && result.Entries[i].ObjectPath != "keyManifest.textproto"))
+//@   ensures[C11] err != nil ==> unchanged(ca.manifest)
+
+//@ func (*CertificateAuthority).writeManifest
+//@   requires ca != nil && ca.Storage != nil
+//@   assigns nothing
+//@   modifies diskHas, wroteAfterManifest, manifestWrites, objWrites, marshalOf
+//@   ensures[C11] (manifestWrites == old(manifestWrites) && wroteAfterManifest == old(wroteAfterManifest)) || (manifestWrites == old(manifestWrites) + 1 && wroteAfterManifest == (old(wroteAfterManifest) || old(manifestWrites) > 0))
+//@   ensures[C11] err == nil ==> manifestWrites == old(manifestWrites) + 1
+//@   ensures[C11] forall(o, string, old(diskHas)[o] ==> diskHas[o])
+
+//@ func (*CertificateAuthority).Finalize
+//@   requires ca != nil && ca.Storage != nil && ca.RootPath != "keyManifest.textproto" && ctx != nil
+//@   requires[C11] manifestWrites == 0 && !wroteAfterManifest && storeConsistent
+//@   requires[C11] ca.manifest != nil ==> forall(i, 0 <= i && i < len(ca.manifest.Entries) ==> ca.manifest.Entries[i] != nil && diskHas[ca.manifest.Entries[i].ObjectPath] && ca.manifest.Entries[i].ObjectPath != "keyManifest.textproto")
+//@   modifies diskHas, wroteAfterManifest, manifestWrites, objWrites, marshalOf, pbsrc, pbok
+//@   sweep[C11] nilinvoke nilmap
+//@   ensures[C11] !wroteAfterManifest && manifestWrites <= 1
+//@   ensures[C11] manifestWrites == 1 ==> ca.manifest != nil && forall(i, 0 <= i && i < len(ca.manifest.Entries) ==> ca.manifest.Entries[i] != nil && diskHas[ca.manifest.Entries[i].ObjectPath])
+//@   ensures[C11] forall(o, string, old(diskHas)[o] ==> diskHas[o])
+//@   loop 1 invariant manifest != nil && manifest == ca.manifest && manifestWrites == 0 && !wroteAfterManifest
+//@   loop 1 invariant forall(i, 0 <= i && i < len(manifest.Entries) ==> manifest.Entries[i] != nil && diskHas[manifest.Entries[i].ObjectPath] && manifest.Entries[i].ObjectPath != "keyManifest.textproto")
+//@   loop 1 invariant forall(o, string, old(diskHas)[o] ==> diskHas[o])
